@@ -164,55 +164,57 @@ func ruleBranch(c *Ctx) {
 			if e, ok := p.Ret.Results[1].(*ssa.Const); !ok || !e.IsNil() {
 				continue // error return
 			}
-			sh := (&shaper{p: &p}).slice(p.Ret.Results[0])
-			if len(sh) == 0 {
-				continue
-			}
-			runs := fieldRuns(sh)
-			bc := &branchClass{Fn: fn, Shape: sh, Path: p, Runs: runs}
-			// leading constant / expr bytes up to the first field
-			first := len(sh)
-			if len(runs) > 0 {
-				first = runs[0].Start
-			}
-			ops := sh[:first]
-			if len(ops) > 1 && ops[0].Kind == bConst && ops[0].C == 0x66 {
-				bc.Prefix = true
-				ops = ops[1:]
-			}
-			bc.Opcodes = ops
-			var od []string
-			for _, e := range ops {
-				switch {
-				case e.Kind == bConst && jccBytes[e.C] && fn == "handleJcc" && len(ops) == 1 && e.C >= 0x70 && e.C <= 0x7f:
-					od = append(od, "Jcc")
-				case e.Kind == bConst:
-					od = append(od, fmt.Sprintf("%02X", e.C))
-				case e.Kind == bExpr:
-					od = append(od, "Jcc+10")
-				default:
-					od = append(od, "?")
+			for _, sp := range shapesWithHelpers(p, p.Ret.Results[0], 2) {
+				sh, p := sp.Shape, sp.Path
+				if len(sh) == 0 {
+					continue
 				}
-			}
-			var ws []string
-			for _, r := range runs {
-				ws = append(ws, fmt.Sprintf("%d", r.Width*8))
-			}
-			bc.Key = fmt.Sprintf("%s|%s disp%s", fn, strings.Join(od, " "), strings.Join(ws, "+"))
-			if bc.Prefix {
-				bc.Key += " +66"
-			}
-			if _, dup := classes[bc.Key]; !dup {
-				classes[bc.Key] = bc
-			}
-			// T3b per path for conditional forms: near form derives from the table byte
-			if fn == "handleJcc" && len(ops) == 2 && ops[0].Kind == bConst && ops[0].C == 0x0f && ops[1].Kind == bExpr {
-				l, lok := ops[1].L.(*ssa.Const)
-				r, rok := ops[1].R.(*ssa.Const)
-				good := lok && rok && ops[1].Op == token.ADD && jccBytes[byte(l.Uint64())] && r.Uint64() == 0x10
-				if !good && !nearBad[bc.Key] {
-					nearBad[bc.Key] = true
-					c.fail("T3b", bc.Key+"|near opcode", c.L.Pos(retPos(p.Ret)), "near conditional jump must be 0F followed by (rel8 opcode + 0x10); found "+ops[1].Desc)
+				runs := fieldRuns(sh)
+				bc := &branchClass{Fn: fn, Shape: sh, Path: p, Runs: runs}
+				// leading constant / expr bytes up to the first field
+				first := len(sh)
+				if len(runs) > 0 {
+					first = runs[0].Start
+				}
+				ops := sh[:first]
+				if len(ops) > 1 && ops[0].Kind == bConst && ops[0].C == 0x66 {
+					bc.Prefix = true
+					ops = ops[1:]
+				}
+				bc.Opcodes = ops
+				var od []string
+				for _, e := range ops {
+					switch {
+					case e.Kind == bConst && jccBytes[e.C] && fn == "handleJcc" && len(ops) == 1 && e.C >= 0x70 && e.C <= 0x7f:
+						od = append(od, "Jcc")
+					case e.Kind == bConst:
+						od = append(od, fmt.Sprintf("%02X", e.C))
+					case e.Kind == bExpr:
+						od = append(od, "Jcc+10")
+					default:
+						od = append(od, "?")
+					}
+				}
+				var ws []string
+				for _, r := range runs {
+					ws = append(ws, fmt.Sprintf("%d", r.Width*8))
+				}
+				bc.Key = fmt.Sprintf("%s|%s disp%s", fn, strings.Join(od, " "), strings.Join(ws, "+"))
+				if bc.Prefix {
+					bc.Key += " +66"
+				}
+				if _, dup := classes[bc.Key]; !dup {
+					classes[bc.Key] = bc
+				}
+				// T3b per path for conditional forms: near form derives from the table byte
+				if fn == "handleJcc" && len(ops) == 2 && ops[0].Kind == bConst && ops[0].C == 0x0f && ops[1].Kind == bExpr {
+					l, lok := ops[1].L.(*ssa.Const)
+					r, rok := ops[1].R.(*ssa.Const)
+					good := lok && rok && ops[1].Op == token.ADD && jccBytes[byte(l.Uint64())] && r.Uint64() == 0x10
+					if !good && !nearBad[bc.Key] {
+						nearBad[bc.Key] = true
+						c.fail("T3b", bc.Key+"|near opcode", c.L.Pos(retPos(p.Ret)), "near conditional jump must be 0F followed by (rel8 opcode + 0x10); found "+ops[1].Desc)
+					}
 				}
 			}
 		}
@@ -253,7 +255,7 @@ func ruleBranch(c *Ctx) {
 				// mode: ptr16:32 needs 66 in 16-bit mode
 				hasMode := false
 				for _, g := range bc.Path.Guards {
-					if dependsOnBitMode(g.Cond) {
+					if pathDependsOnField(&bc.Path, g.Cond, "BitMode") {
 						hasMode = true
 					}
 				}
@@ -293,7 +295,7 @@ func ruleBranch(c *Ctx) {
 			// ---- M4 mode guards
 			hasMode := false
 			for _, g := range bc.Path.Guards {
-				if dependsOnBitMode(g.Cond) {
+				if pathDependsOnField(&bc.Path, g.Cond, "BitMode") {
 					hasMode = true
 				}
 			}
@@ -403,4 +405,40 @@ func oddBranchLeaf(v ssa.Value) string {
 		return fmt.Sprintf("%s (%s)", x.Name(), x.Op)
 	}
 	return fmt.Sprintf("%s (%T)", valName(v), v)
+}
+
+
+// pathDependsOnField: like dependsOnFieldLoad, reading parameters of inlined helpers as the
+// arguments the path binds them to.
+func pathDependsOnField(p *pathInfo, v ssa.Value, fld string) bool {
+	seen := map[ssa.Value]bool{}
+	var walk func(ssa.Value) bool
+	walk = func(x ssa.Value) bool {
+		if x == nil || seen[x] {
+			return false
+		}
+		seen[x] = true
+		if p != nil && p.Subst != nil {
+			if a, ok := p.Subst[x]; ok {
+				return walk(a)
+			}
+		}
+		if isFieldLoad(x, fld) {
+			return true
+		}
+		if in, ok := x.(ssa.Instruction); ok {
+			if call, isCall := x.(*ssa.Call); isCall {
+				if _, isBuiltin := call.Call.Value.(*ssa.Builtin); !isBuiltin {
+					return false
+				}
+			}
+			for _, op := range in.Operands(nil) {
+				if op != nil && *op != nil && walk(*op) {
+					return true
+				}
+			}
+		}
+		return false
+	}
+	return walk(v)
 }
